@@ -161,7 +161,7 @@ func runC18(c *fw.Ctx) {
 			}
 		}
 	}
-	n := c.N(150, 5000)
+	n := c.N(300, 5000)
 	for i := 0; i < n; i++ {
 		id := "syn/" + itoa(i)
 		if !c.Want(1000+i, id) {
@@ -205,7 +205,59 @@ func runC18(c *fw.Ctx) {
 			c.Sample(map[string]any{"case": id, "text": pr.Text, "prefixes": len(canon.Text), "a_mutant": gen.DropNames(r, toks)})
 		}
 	}
-	n = c.N(15000, 800000)
+	// numerals of 1..60 digits in every numeric position (literal conversions run inside CheckSource)
+	for d := 1; d <= 60; d++ {
+		id := "numeral/" + itoa(d)
+		if !c.Want(2_000_000+d, id) {
+			continue
+		}
+		r := c.Rng(id)
+		for k := 0; k < 4; k++ {
+			digits := make([]byte, d)
+			for i := range digits {
+				digits[i] = byte('0' + r.Intn(10))
+			}
+			ds := string(digits)
+			for _, t := range []string{
+				"send [USD " + ds + "] (source = @a destination = @b)",
+				"send [USD -" + ds + "] (source = @a destination = @b)",
+				"send [USD 1] (source = @a destination = { " + ds + "/" + ds + " to @b remaining kept })",
+				"send [USD 1] (source = @a destination = { 0." + ds + "% to @b remaining kept })",
+				"send [USD 1] (source = { " + ds + "% from @a remaining from @b } destination = @c)",
+				"set_tx_meta(\"k\", " + ds + " + " + ds + ")",
+				"vars { portion $p } send [USD 1] (source = @a destination = { $p to @b " + ds + "." + ds + "% kept })",
+			} {
+				c.Count("numeral_texts", 1)
+				if !checkEditorText(c, t, "numeral") {
+					return
+				}
+			}
+		}
+	}
+	// near-miss names: undeclared variables close to several declared ones
+	for i := 0; i < c.N(300, 6000); i++ {
+		id := "names/" + itoa(i)
+		if !c.Want(2_500_000+i, id) {
+			continue
+		}
+		r := c.Rng(id)
+		pool := []string{"fee", "fee1", "fee2", "fees", "source_a", "source_b", "source", "amount", "amounts", "amount_a", "amount_b", "acc", "acc1", "acc2"}
+		var decl []string
+		for k := r.Range(2, 5); k > 0; k-- {
+			decl = append(decl, "monetary $"+rng.PickOf(r, pool))
+		}
+		var uses []string
+		for k := r.Range(1, 4); k > 0; k-- {
+			uses = append(uses, "send $"+rng.PickOf(r, pool)+" (source = @a destination = @b)")
+		}
+		t := "vars { " + strings.Join(decl, " ") + " }\n" + strings.Join(uses, "\n")
+		for rep := 0; rep < 6; rep++ {
+			if !checkEditorText(c, t, "near-miss-names") {
+				return
+			}
+		}
+	}
+	n = c.N(40000, 800000)
 	for i := 0; i < n; i++ {
 		id := "soup/" + itoa(i)
 		if !c.Want(3_000_000+i, id) {
